@@ -46,8 +46,8 @@ CLAIMED = {
    text='Self-composition in one solver query: the main solver (reachable prefix + arbitrary values) alone versus with another live Solver (same dimension/density on a different box, or another dimension) created alongside and iterated under lock-step / other-first / block schedules, also with both solvers refining under the minimize stub: same trial sequence, record and result, Solutions kept from Solve still report their optimum afterwards, and the other solver makes the trials it makes alone.',
    note='z3 QF_NRA; symex proxies; two solvers, bounded run lengths; refinement through the contract stub'),
  'C13': dict(level='model_checking', ref='5/C13',
-   text='Self-composition: a listener-free reference versus solvers carrying a recording listener derived from the base class overriding each of the 16 subsets of callbacks, and the shipped console listener in its three modes with stdout captured (symbolic numbers print as term tags, so report contents are compared exactly): notification count, order and contents, OnMethodStop solution, non-interference on trials and result, console report = solution fields; batches then Solve, N in {1,2}, with and without refinement (stub). Painting listeners are NOT covered (matplotlib/sklearn cannot be executed symbolically).',
-   note='z3; symex proxies; print stub; minimize stub; the four painting listeners are outside the claim'),
+   text='Self-composition: a listener-free reference versus solvers carrying a recording listener derived from the base class overriding each of the 16 subsets of callbacks, and the shipped console listener in its three modes with stdout captured (symbolic numbers print as term tags, so report contents are compared exactly): notification count, order and contents, OnMethodStop solution, non-interference on trials and result, console report = solution fields; batches then Solve, N in {1,2}, with and without refinement (stub). For the four painting listeners (matplotlib/sklearn cannot be executed symbolically) only a ground native differential run over 28 configurations is made.',
+   note='z3; symex proxies; print stub; minimize stub; the painting listeners are covered by concrete differential runs only'),
 
  'C19': dict(level='model_checking', ref='5/C19',
    text='The real SearchData, SearchDataDualQueue, CharacteristicsQueue and depq.DEPQ executed on all operation sequences up to a length (plus seeded longer ones) over insert with/without hint, clear, refill, best (global/local), covering lookup and re-computed characteristics, with every coordinate and characteristic a symbolic real (ties included): after every operation the public methods are compared with a reference model (sorted list + multiset of queued entries); bounded queue keeps the maxlen largest keys. Comparison-only arithmetic, decided by z3 over all orderings.',
